@@ -69,7 +69,7 @@ Definition case_proj (cur : nat) (kr : raise_spec) (nest : nest_spec) : nat -> t
         match nest with
         | Some (kn, facts, limit2, d2, kr2) =>
             if Nat.eqb k kn then
-              match evaluate_bounded (facts_ans facts) (simple_proj kr2) (fun _ _ => d2) (cur + 2) true
+              match evaluate_bounded (facts_ans facts) (fun _ => ERuntime) (simple_proj kr2) (fun _ _ => d2) (cur + 2) true
                                      {| rl := r; gs := Susp 0 |} limit2 with
               | (Return x, st') => (PVal (1000 + N.of_nat (length x))%N, rl st')
               | (Propagate e, st') => (PRaise e, rl st')
@@ -84,7 +84,7 @@ Definition run_bounded (P : list clause) (q : term) (fu : nat) (cur limit rl0 dl
   let thi := sld_ans P fu q dhi in
   let tlo := sld_ans P fu q dlo in
   let ans := fun n => if Nat.eqb n dhi then thi else if Nat.eqb n dlo then tlo else sld_ans P fu q n in
-  let m := fun d => evaluate_bounded ans (case_proj cur kr nest) (fun _ _ => d) cur true
+  let m := fun d => evaluate_bounded ans (fun _ => ERuntime) (case_proj cur kr nest) (fun _ _ => d) cur true
                                      {| rl := rl0; gs := Susp 0 |} limit in
   OL [ OL (map (fun t => oN (fp t)) (firstn cap (fst thi))); onat (length (fst thi)); fin_obs (snd thi);
        onat (length (fst tlo)); fin_obs (snd tlo);
